@@ -276,7 +276,10 @@ func program(c Case) (setup, main string) {
     (vt:sink id (shared-fn i))
     (vt:sink id (shared-gf i))
     (vt:sink id (shared-gf "s"))
-    (vt:sink id (write-to-string (list id i (list "a" 'b 1.5 (list i i i) "cccccccccc") (list id id)) :pretty t :right-margin (+ 10 (mod (+ id i) 30)))))
+    (vt:sink id (write-to-string (list id i (list "a" 'b 1.5 (list i i i) "cccccccccc") (list id id)) :pretty t :right-margin (+ 10 (mod (+ id i) 30))))
+    (vt:sink id (prin1-to-string (list id i (+ 4000000 (* id 1000) i) "payload" 'done)))
+    (vt:sink id (princ-to-string (list id i (+ 4000000 (* id 1000) i) "payload" 'done)))
+    (vt:sink id (format nil "~S|~A|~8D|~R" (list id "x" i) (list id "x" i) (+ (* id 1000) i) (+ (* id 1000) i))))
   (vt:end))
 `, c.M)
 		// every routine also (re)defines, three times, a method of the shared generic on a class of its own
@@ -554,32 +557,44 @@ func judge(c Case, scope *slip.Scope, val slip.Object) string {
 			return fmt.Sprintf("definitions made by the routines read back as %s, expected %s", g, w)
 		}
 		for id, items := range sinks {
-			if len(items) != 12*c.M {
-				return fmt.Sprintf("routine %d recorded %d results, expected %d", id, len(items), 12*c.M)
+			const per = 7 // results per iteration
+			if len(items) != 3*per*c.M {
+				return fmt.Sprintf("routine %d recorded %d results, expected %d", id, len(items), 3*per*c.M)
 			}
 			for i := 0; i < c.M; i++ { // the three rounds give the same results; the first is compared in detail
 				for round := 1; round < 3; round++ {
-					for k := 0; k < 4; k++ {
-						if sx.Text(items[4*i+k]) != sx.Text(items[round*4*c.M+4*i+k]) {
-							return fmt.Sprintf("routine %d: result %d of iteration %d differs between rounds: %s vs %s", id, k, i, sx.Text(items[4*i+k]), sx.Text(items[round*4*c.M+4*i+k]))
+					for k := 0; k < per; k++ {
+						if sx.Text(items[per*i+k]) != sx.Text(items[round*per*c.M+per*i+k]) {
+							return fmt.Sprintf("routine %d: result %d of iteration %d differs between rounds: %s vs %s", id, k, i, sx.Text(items[per*i+k]), sx.Text(items[round*per*c.M+per*i+k]))
 						}
 					}
 				}
-				if w, g := fmt.Sprint(i*2+1), sx.Text(items[4*i]); w != g {
+				if w, g := fmt.Sprint(i*2+1), sx.Text(items[per*i]); w != g {
 					return fmt.Sprintf("routine %d: (shared-fn %d) => %s", id, i, g)
 				}
-				if w, g := fmt.Sprintf("(fixnum %d)", i), sx.Text(items[4*i+1]); w != g {
+				if w, g := fmt.Sprintf("(fixnum %d)", i), sx.Text(items[per*i+1]); w != g {
 					return fmt.Sprintf("routine %d: (shared-gf %d) => %s", id, i, g)
 				}
-				if w, g := `(string "s")`, sx.Text(items[4*i+2]); w != g {
+				if w, g := `(string "s")`, sx.Text(items[per*i+2]); w != g {
 					return fmt.Sprintf("routine %d: (shared-gf \"s\") => %s", id, g)
 				}
 				// printed text must equal the single-threaded rendering (computed now, all routines have finished)
 				form := fmt.Sprintf(`(write-to-string (list %d %d (list "a" 'b 1.5 (list %d %d %d) "cccccccccc") (list %d %d)) :pretty t :right-margin %d)`,
 					id, i, i, i, i, id, id, 10+(int(id)+i)%30)
 				ref := ev.Eval(scope, form)
-				if ref.Kind != ev.Value || sx.Text(ref.Val) != sx.Text(items[4*i+3]) {
-					return fmt.Sprintf("routine %d printed %s, single-threaded rendering is %s", id, sx.Text(items[4*i+3]), ref)
+				if ref.Kind != ev.Value || sx.Text(ref.Val) != sx.Text(items[per*i+3]) {
+					return fmt.Sprintf("routine %d printed %s, single-threaded rendering is %s", id, sx.Text(items[per*i+3]), ref)
+				}
+				// the other printing functions, each on data only this routine has
+				for k, f := range []string{
+					`(prin1-to-string (list %[1]d %[2]d (+ 4000000 (* %[1]d 1000) %[2]d) "payload" 'done))`,
+					`(princ-to-string (list %[1]d %[2]d (+ 4000000 (* %[1]d 1000) %[2]d) "payload" 'done))`,
+					`(format nil "~S|~A|~8D|~R" (list %[1]d "x" %[2]d) (list %[1]d "x" %[2]d) (+ (* %[1]d 1000) %[2]d) (+ (* %[1]d 1000) %[2]d))`,
+				} {
+					ref := ev.Eval(scope, fmt.Sprintf(f, id, i))
+					if ref.Kind != ev.Value || sx.Text(ref.Val) != sx.Text(items[per*i+4+k]) {
+						return fmt.Sprintf("routine %d printed %s, single-threaded rendering is %s", id, sx.Text(items[per*i+4+k]), ref)
+					}
 				}
 			}
 		}
